@@ -719,6 +719,51 @@ fn render_case(sub: &SubCheck, tier: Tier, known: &Arc<Vec<String>>, bytes: &[u8
 }
 
 // ---------------------------------------------------------------------------
+// libFuzzer entry: the fuzz targets in /verif/fuzz hand their input to the very
+// same case functions
+
+/// Run one libFuzzer input through a case function. A failure that is not a
+/// listed known finding writes a replay file and panics (libFuzzer then saves
+/// the crashing input as an artifact); known findings are tolerated so that a
+/// campaign keeps searching behind them. `VERIF_STRICT=1` disables the
+/// tolerance.
+pub fn fuzz_one(property: &'static str, subcheck: &'static str, run: CaseFn, data: &[u8]) {
+    use std::sync::OnceLock;
+    static KNOWN: OnceLock<Arc<Vec<String>>> = OnceLock::new();
+    static HOOK: OnceLock<()> = OnceLock::new();
+    HOOK.get_or_init(install_panic_hook);
+    let strict = std::env::var("VERIF_STRICT").map(|v| v == "1").unwrap_or(false);
+    let known = KNOWN
+        .get_or_init(|| {
+            if strict {
+                Arc::new(vec![])
+            } else {
+                Arc::new(load_known_findings(property).into_iter().map(|k| k.signature).collect())
+            }
+        })
+        .clone();
+    let mut ctx = Ctx::new(Tier::Thorough, strict, false, known.clone());
+    match run_case(run, data, &mut ctx) {
+        Ok(()) => {}
+        Err(f) => {
+            if known.iter().any(|k| *k == f.sig) {
+                return;
+            }
+            let rendering = {
+                let mut c2 = Ctx::new(Tier::Thorough, true, true, Arc::new(vec![]));
+                let _ = run_case(run, data, &mut c2);
+                c2.render
+            };
+            let path = write_replay(property, subcheck, data, &f, rendering.as_deref(), "libFuzzer");
+            eprintln!("FUZZ-FAILURE property={property} subcheck={subcheck} signature={} replay={}", f.sig, path.display());
+            eprintln!("  {}", f.msg);
+            QUIET.with(|q| *q.borrow_mut() = false);
+            std::process::abort();
+        }
+    }
+}
+
+// ---------------------------------------------------------------------------
 // main entry
 
 fn usage(id: &str) -> ! {
